@@ -391,7 +391,18 @@ def run_scenario(sc):
                     else:
                         probe = ptera.probing(*strs, env=sel_env())
                         probe.subscribe(lambda data, got=got: got.append({k: canon(v) for k, v in data.items()}))
-                    probe.__enter__()
+                    try:
+                        probe.__enter__()
+                    except Exception:
+                        if not spec.get("expect_refusal"):
+                            raise
+                        # a refused activation: this thread carries on without a probe, and the
+                        # others must not notice anything
+                        stats["activation_refused"] = stats.get("activation_refused", 0) + 1
+                        probe = None
+                    else:
+                        if spec.get("expect_refusal"):
+                            viol.append(["C08.refused_activation", t, {"accepted": strs}])
                 for op in rnd["calls"]:
                     env = tenv._envs[threading.get_ident()]
                     env.reset(op.get("tape", []), op.get("faults", {}), base=100000 * (t + 1) + 1000 * n)
